@@ -228,6 +228,20 @@ def check_sweeps(ctx, only=None):
                 if st[0] == "A" and st[2][0] == "Agg" and st[2][1][0] == "Adt" and st[2][1][1].endswith("ops::Range"):
                     rng = [strip_casts(fd.expr(o)) for o in st[2][2]]
         cs = [(b, c) for (b, c) in fb.calls if (c.get("resolved") or c.get("f")) == SM + "::" + callee]
+        if not cs and rng is not None and rng[0] == ("const", 0) and rng[1] == ("gconst", "MAX_STREAMS"):
+            # iterator form: `(0..MAX_STREAMS).any(|id| self.callee(id))` / `.for_each(..)` / `.all(..)`: std visits every id of the range (any / all stop early only once
+            # the answer is decided), the closure calls the per-id function once with its own parameter
+            its = [(b, c) for (b, c) in fb.calls if c.get("fname") in ("any", "all", "for_each") and c["args"] and "Range" in fb.locals[op_local(c["args"][0])]["ty"]] if True else []
+            kids = [g for g in fx.fns if g["key"].startswith(kf + "::{closure#")]
+            inner = [(g, blk["term"][1]) for g in kids for blk in g["blocks"] if blk["term"][0] == "Call" and (blk["term"][1].get("resolved") or blk["term"][1].get("f")) == SM + "::" + callee]
+            ok_it = len(its) == 1 and len(inner) == 1
+            if ok_it:
+                g, c_ = inner[0]
+                gd = D.Dag(Body(g))
+                a_ = strip_casts(gd.expr(c_["args"][1]))
+                ok_it = a_[0] == "param" and a_[1] == 2 and not Body(g).loops
+            ctx.ob("R06.6", f"{kf}|visits-every-stream-id", ok_it, f"{fb.f['file']}:{fb.f['line']}", f"{fn} runs {callee}(id) for the ids of 0..MAX_STREAMS through an iterator adaptor ({[c.get('fname') for (_, c) in its]})")
+            continue
         ok = rng is not None and rng[0] == ("const", 0) and rng[1] == ("gconst", "MAX_STREAMS") and len(cs) == 1 and util.in_loop(fb, cs[0][0])
         if ok:
             h = [h for h, bl in fb.loops.items() if cs[0][0] in bl][0]
